@@ -1,6 +1,8 @@
 #include "simfs.h"
 #include <dirent.h>
+#include <fcntl.h>
 #include <sys/stat.h>
+#include <sys/syscall.h>
 #include <unistd.h>
 #include <algorithm>
 #include <cstdlib>
@@ -69,8 +71,16 @@ std::string SimFs::abs(const std::string& rel) const {
   return rel.empty() ? root_ : root_ + "/" + rel;
 }
 void SimFs::writeAbs(const std::string& path, const std::string& content) {
-  std::ofstream f(path, std::ios::trunc);
-  f << content;
+  // raw system calls: the harness's own file operations must not pass through the interposers
+  int fd = (int)syscall(SYS_openat, AT_FDCWD, path.c_str(), O_WRONLY | O_CREAT | O_TRUNC, 0644);
+  if (fd < 0) return;
+  size_t off = 0;
+  while (off < content.size()) {
+    long n = syscall(SYS_write, fd, content.data() + off, content.size() - off);
+    if (n <= 0) break;
+    off += (size_t)n;
+  }
+  syscall(SYS_close, fd);
 }
 void SimFs::mkcg(const std::string& rel) {
   std::string cur;
@@ -109,10 +119,13 @@ void SimFs::remove(const std::string& rel, const std::string& file) {
   unlink((abs(rel) + "/" + file).c_str());
 }
 std::string SimFs::read(const std::string& rel, const std::string& file) const {
-  std::ifstream f(abs(rel) + "/" + file);
-  std::stringstream ss;
-  ss << f.rdbuf();
-  return ss.str();
+  std::string path = abs(rel) + "/" + file, s;
+  int fd = (int)syscall(SYS_openat, AT_FDCWD, path.c_str(), O_RDONLY, 0);
+  char buf[8192];
+  long n;
+  while (fd >= 0 && (n = syscall(SYS_read, fd, buf, sizeof buf)) > 0) s.append(buf, (size_t)n);
+  if (fd >= 0) syscall(SYS_close, fd);
+  return s;
 }
 void SimFs::setXattr(const std::string& rel, const std::string& name, const std::string& val) {
   xattrStore()[abs(rel)][name] = val;
